@@ -185,8 +185,9 @@ func (c *Client) onError(conn *nats.Conn, sub *nats.Subscription, err error) {
 func (c *Client) SendRequest(subj string, payload []byte, cb mq.Response) {
 	inbox := nats.NewInbox()
 
-	// Validate max control line size
-	if len(subj)+len(inbox) > nats.MAX_CONTROL_LINE_SIZE {
+	// Validate max control line size. The server measures the whole argument
+	// of the PUB line: "<subject> <reply> <size>".
+	if len(subj)+1+len(inbox)+1+len(strconv.Itoa(len(payload))) > nats.MAX_CONTROL_LINE_SIZE {
 		go cb("", nil, mq.ErrSubjectTooLong)
 		return
 	}
@@ -215,8 +216,9 @@ func (c *Client) SendRequest(subj string, payload []byte, cb mq.Response) {
 // Subscribe to all events on a resource namespace.
 // The namespace has the format "event."+resource
 func (c *Client) Subscribe(namespace string, cb mq.Response) (mq.Unsubscriber, error) {
-	// Validate max control line size
-	if len(namespace) > nats.MAX_CONTROL_LINE_SIZE-2 {
+	// Validate max control line size. The server measures the whole argument
+	// of the SUB line: "<namespace>.* <sid>", where sid is a decimal int64.
+	if len(namespace)+2+1+20 > nats.MAX_CONTROL_LINE_SIZE {
 		return nil, mq.ErrSubjectTooLong
 	}
 
